@@ -24,6 +24,9 @@ inductive Pos : Ty → Bool → Path → Prop where
   | idxA {et r i oc s} : Pos et false s → Pos (.array et r) oc (PE.nat .index i :: s)
   | idxT {ts g i t oc s} : (ts[i]? = some t ∨ (ts.length ≤ i ∧ ts.getLast? = some t)) → Pos t false s →
       Pos (.tuple ts g) oc (PE.nat .index i :: s)
+  | callP {ep rt bl oc s} : Pos ep false s → Pos (.callable (some ep) rt bl) oc s
+  | callRet {ps er bl oc} : Pos (.callable ps (some er) bl) oc [⟨.ret, ""⟩]
+  | callBlk {ps rt eb oc} : Pos (.callable ps rt (some eb)) oc [⟨.block, ""⟩]
 
 theorem Reach.toPos {e a oc s x a'} (h : Reach e a oc s x a') : Pos e oc s := by
   induction h with
@@ -40,6 +43,9 @@ theorem Reach.toPos {e a oc s x a'} (h : Reach e a oc s x a') : Pos e oc s := by
   | idxAT _ _ ih => exact .idxA ih
   | idxTA hi _ ih => exact .idxT (.inl hi) ih
   | idxTT hl hle _ _ ih => exact .idxT (.inr ⟨hle, hl⟩) ih
+  | callP _ ih => exact .callP ih
+  | callRet => exact .callRet
+  | callBlk => exact .callBlk
 
 theorem wf_of_mem_members {cfg : Cfg} {e : Ty} {oc : Bool} {xs : List Atom} {t : Ty} (hw : Ty.WF cfg e)
     (hm : members e oc = some xs) (hin : Atom.ty t ∈ xs) : Ty.WF cfg t := by
@@ -63,6 +69,11 @@ theorem wf_of_mem_members {cfg : Cfg} {e : Ty} {oc : Bool} {xs : List Atom} {t :
       · simp at h
       · simp only [if_true, List.mem_singleton, Atom.ty.injEq] at h; subst h; simp [Ty.WF]
 
+theorem wf_callable_parts {cfg : Cfg} {p r k : Option Ty} (h : Ty.WF cfg (.callable p r k)) :
+    (∀ t, p = some t → Ty.WF cfg t) ∧ (∀ t, r = some t → Ty.WF cfg t) ∧ (∀ t, k = some t → Ty.WF cfg t) := by
+  unfold Ty.WF at h
+  refine ⟨?_, ?_, ?_⟩ <;> (intro t ht; subst ht; first | exact h.1 | exact h.2.1 | exact h.2.2)
+
 /-- well-formedness of the expected type is inherited by every expected sub-term a walk reaches -/
 theorem Reach.wf {cfg : Cfg} {e a oc s e' a'} (h : Reach e a oc s (.ty e') a') (hw : Ty.WF cfg e) : Ty.WF cfg e' := by
   generalize hx : Atom.ty e' = x at h
@@ -80,5 +91,8 @@ theorem Reach.wf {cfg : Cfg} {e a oc s e' a'} (h : Reach e a oc s (.ty e') a') (
   | idxAT _ _ ih => rw [Ty.WF] at hw; exact ih hw hx
   | idxTA hi _ ih => rw [Ty.WF] at hw; exact ih (hw _ (List.mem_of_getElem? hi)) hx
   | idxTT hl _ _ _ ih => rw [Ty.WF] at hw; exact ih (hw _ (List.mem_of_getLast? hl)) hx
+  | callP _ ih => exact ih ((wf_callable_parts hw).1 _ rfl) hx
+  | callRet => simp only [Atom.ty.injEq] at hx; subst hx; exact (wf_callable_parts hw).2.1 _ rfl
+  | callBlk => simp only [Atom.ty.injEq] at hx; subst hx; exact (wf_callable_parts hw).2.2 _ rfl
 
 end Pcore.Desc
